@@ -2,6 +2,7 @@
 import sys
 import vlib
 from comp.rb import check as rb
+from comp.ptrgen import check as ptrgen
 
 def main():
     c = vlib.Check("C06")
@@ -9,7 +10,10 @@ def main():
     c.trusted = ["Coq 8.16.1 kernel (coqc; vm_compute only in Examples)"] + rb.TRUSTED
     c.assumptions = rb.ASSUMPTIONS
     c.kind_filter = lambda k: k not in vlib.LIFETIME_KINDS     # lifetime/allocation kinds belong to C16 (rb owns nothing)
-    c.prove(['C06', 'C06_ptr'])    # C06_ptr: pointer-level model of rbtree.hpp refines the functional core
+    ptrgen.run(c, ["rb"])          # pointer-level definitions re-translated from the current source (translator tie)
+    c.trusted = c.trusted + ptrgen.TRUSTED
+    # C06_ptr: pointer-level model of rbtree.hpp refines the functional core; TIE_ptr_rb: the regenerated definitions equal it
+    c.prove(['C06', 'C06_ptr'] + ptrgen.prop_ids(["rb"]))
     rb.run(c)
     sys.exit(c.finish())
 
